@@ -12,6 +12,8 @@ import (
 
 	"verifharness/absx"
 	"verifharness/antecheck"
+	"verifharness/bridge"
+	"verifharness/det"
 	"verifharness/fmtcheck"
 	"verifharness/l1"
 	"verifharness/l2"
@@ -26,6 +28,23 @@ func (i l1Impl) Exec(e absx.M) (bool, absx.M, string) {
 	return o.OK, o.Resp, o.Err
 }
 func (i l1Impl) Project() absx.M { return i.ch.Project() }
+
+func (i l1Impl) Digest() string     { return i.ch.Digest() }
+func (i l1Impl) Raw() string        { return i.ch.F.LastRaw }
+func (i l2Impl) Digest() string     { return i.ch.Digest() }
+func (i l2Impl) Raw() string        { return i.ch.F.LastRaw }
+func (i valImpl) Digest() string    { return i.ch.Digest() }
+func (i valImpl) Raw() string       { return i.ch.F.LastRaw }
+func (i oracleImpl) Digest() string { return i.ch.Digest() }
+func (i oracleImpl) Raw() string    { return i.ch.F.LastRaw }
+
+type bridgeImpl struct{ p *bridge.Pair }
+
+func (i bridgeImpl) Fork() walk.Impl                         { return bridgeImpl{i.p.Fork()} }
+func (i bridgeImpl) Exec(e absx.M) (bool, absx.M, string) { return i.p.Exec(e) }
+func (i bridgeImpl) Project() absx.M                         { return i.p.Project() }
+func (i bridgeImpl) Digest() string                          { return i.p.Digest() }
+func (i bridgeImpl) Raw() string                             { return i.p.Raw() }
 
 type l2Impl struct{ ch *l2.Chain }
 
@@ -133,6 +152,10 @@ func main() {
 	out := fs.String("out", "-", "report path")
 	keep := fs.Int("keep", 50, "mismatches to keep in the report")
 	file := fs.String("file", "", "replay file")
+	kind := fs.String("kind", "l1", "fixture kind for det-run: l1 | l2 | val | oracle")
+	paths := fs.Int("paths", 20, "number of random paths (det-run)")
+	maxLen := fs.Int("len", 25, "maximum path length (det-run)")
+	replicas := fs.Int("replicas", 4, "independent instances per path (det-run)")
 	layouts := fs.String("layouts", "", "TLC output with LAYOUT lines (fmt-check)")
 	vectors := fs.String("vectors", "", "pinned vectors file (fmt-check)")
 	rounds := fs.Int("rounds", 50, "seeded fills per case (fmt-check)")
@@ -202,6 +225,50 @@ func main() {
 		}
 		rep := walk.Walk(g, func() walk.Impl { return newValImpl(*seed, *scale, g.Meta) }, *keep)
 		writeJSON(*out, rep)
+	case "det-run":
+		g, err := walk.Load(*edges)
+		if err != nil {
+			fmt.Fprintln(os.Stderr, err)
+			os.Exit(2)
+		}
+		var mk func() det.Impl
+		switch *kind {
+		case "l1":
+			mk = func() det.Impl {
+				conc := l1.NewConc(*seed, parseScale(*scale))
+				cfg := l1.DefaultRunCfg()
+				l1.ApplyMeta(&cfg, conc, g.Meta)
+				return l1Impl{l1.NewChain(conc, cfg)}
+			}
+		case "l2":
+			mk = func() det.Impl { return l2Impl{l2.NewChain(l1.NewConc(*seed, parseScale(*scale)), l2Cfg(g.Meta))} }
+		case "val":
+			mk = func() det.Impl { return newValImpl(*seed, *scale, g.Meta).(valImpl) }
+		case "oracle":
+			mk = func() det.Impl { return newOracleImpl(*seed, *scale, g.Meta).(oracleImpl) }
+		default:
+			fmt.Fprintln(os.Stderr, "unknown --kind", *kind)
+			os.Exit(2)
+		}
+		st, err := det.Run(g, mk, *paths, *maxLen, *replicas, *seed, *out)
+		if err != nil {
+			fmt.Fprintln(os.Stderr, err)
+			os.Exit(2)
+		}
+		bz, _ := json.Marshal(st)
+		fmt.Println(string(bz))
+	case "bridge-walk":
+		g, err := walk.Load(*edges)
+		if err != nil {
+			fmt.Fprintln(os.Stderr, err)
+			os.Exit(2)
+		}
+		rep := walk.Walk(g, func() walk.Impl { return bridgeImpl{bridge.New(l1.NewConc(*seed, parseScale(*scale)), g.Meta)} }, *keep)
+		writeJSON(*out, rep)
+	case "bridge-replay":
+		os.Exit(replayGeneric(*file, func(nb absx.M) walk.Impl {
+			return bridgeImpl{bridge.New(l1.NewConc(absx.Int(nb["seed"]), parseScale(absx.Str(nb["scale"]))), absx.Map(nb["meta"]))}
+		}))
 	case "oracle-walk":
 		g, err := walk.Load(*edges)
 		if err != nil {
